@@ -99,8 +99,7 @@ TErrorFree ==
     LET r == Rec[l] IN
     /\ ~CheckErrors
     /\ r.e = "error" /\ r.t >= now
-    /\ OutDone
-    /\ now' = r.t
+    /\ now' = r.t            \* the error hook is another task: it may run wherever the worker yields
     /\ main = "run"
     /\ errq' = IF errq # <<>> THEN Tail(errq) ELSE errq     \* not judged here: C15 does that
     /\ main' = IF r.a \in {"elevate", "critical"} THEN "failing" ELSE "run"
